@@ -37,10 +37,18 @@ func (g *GraphSpec) Stage(name string) *StageSpec {
 
 // AllLeaves lists every non-nested stage, recursively.
 func (g *GraphSpec) AllLeaves() []*StageSpec {
+	return g.allLeaves(map[*GraphSpec]bool{})
+}
+
+func (g *GraphSpec) allLeaves(seen map[*GraphSpec]bool) []*StageSpec {
 	var out []*StageSpec
+	if seen[g] {
+		return nil // a pipeline nested by several stages is listed once
+	}
+	seen[g] = true
 	for _, s := range g.Stages {
 		if s.Nested != nil {
-			out = append(out, s.Nested.AllLeaves()...)
+			out = append(out, s.Nested.allLeaves(seen)...)
 		} else {
 			out = append(out, s)
 		}
@@ -98,15 +106,16 @@ func (g *GraphSpec) String() string {
 }
 
 type SchedGenParams struct {
-	MaxStages   int
-	SystematicN int // >0: n is fixed and EdgeMask gives the edge set
-	EdgeMask    int
-	NestProb    int // out of 100
-	MissingProb int // out of 100, per world
-	FailProb    int
-	AllowProb   int
-	CondProb    int
-	MaxDepth    int
+	MaxStages      int
+	SystematicN    int // >0: n is fixed and EdgeMask gives the edge set
+	EdgeMask       int
+	NestProb       int // out of 100
+	SharedNestProb int // out of 100, given a nested pipeline: a second stage nests the same pipeline
+	MissingProb    int // out of 100, per world
+	FailProb       int
+	AllowProb      int
+	CondProb       int
+	MaxDepth       int
 	// NoTrueCondWithDeps: a stage that waits for dependencies never gets a `true` condition.
 	// (The scheduler re-evaluates the condition of every waiting stage on every pass, by forking
 	// the program; engines that let much simulated time pass would fork thousands of times.)
@@ -166,6 +175,15 @@ func GenGraph(ch *Choices, p SchedGenParams, prefix string, depth int) *GraphSpe
 		k := ch.Choose(n, "nest-which")
 		specs[k].Nested = GenGraph(ch, p, specs[k].Name+".", depth+1)
 		specs[k].Fail = false
+		if n >= 2 && ch.Bool(p.SharedNestProb, 100, "shared-nested") {
+			// a second stage nests the very same pipeline
+			j := ch.Choose(n-1, "shared-which")
+			if j >= k {
+				j++
+			}
+			specs[j].Nested = specs[k].Nested
+			specs[j].Fail = false
+		}
 	}
 	if depth == 0 && ch.Bool(p.MissingProb, 100, "missing-cond") {
 		leaves := (&GraphSpec{Stages: specs}).AllLeaves()
